@@ -21,7 +21,7 @@ pub fn property() -> Property {
     Property {
         id: "C14",
         level: "exploration",
-        rule: "(interval, timeout) pairs in whole seconds (grid {1,2,3,5,10,29,30,31,60,120}^2 in quick, 1..60 squared in thorough, plus random pairs) x peer = real server session over pipes with a one-way delay (round trip < timeout) or scripted peer answering each request after a generated delay and falling silent (neither reading nor writing) never / before the first request / between request and response / after k exchanges, with and without stream traffic, pipe capacity above and below the traffic volume. Oracles (HeartbeatSpec, DESIGN A.3): safe - while every request is answered within the timeout the session stays open over >= 40 intervals; detect - once the peer is silent the session is closed no later than last answer + timeout + interval (+ 150 ms polling slack) and a blocked reader is released; answer - the real server answers every request. Non-trivial = timeout <= interval, or round trip > timeout/2, or silence starting between a request and its response, or traffic exceeding the pipe capacity. Distinct = distinct serialized case.",
+        rule: "(interval, timeout) pairs in whole seconds (grid {1,2,3,5,10,29,30,31,60,120}^2 in quick, 1..60 squared in thorough, plus random pairs) x peer = real server session over pipes with a one-way delay (round trip < timeout) or scripted peer answering each request after a generated delay and falling silent (neither reading nor writing) never / before the first request / between request and response / after k exchanges, with and without stream traffic, pipe capacity above and below the traffic volume, keep-alive requests unpadded / padded by the built-in scheme / padded to 400-800 bytes in every packet and pushed through a pipe that takes 64 bytes at a time (the answer is back while the request's padding is still being written). Oracles (HeartbeatSpec, DESIGN A.3): safe - while every request is answered within the timeout the session stays open over >= 40 intervals; detect - once the peer is silent the session is closed no later than last answer + timeout + interval (+ 150 ms polling slack) and a blocked reader is released; answer - the real server answers every request. Non-trivial = timeout <= interval, or round trip > timeout/2, or silence starting between a request and its response, or traffic exceeding the pipe capacity, or padded requests through the 64-byte pipe. Distinct = distinct serialized case.",
         assumptions: vec![
             "tokio paused clock with auto-advance; is_closed sampled every 100 ms of virtual time",
             "Lab-S `glue` family (real time, whole seconds 1-3): the real Client against the reference server, peer answering or silent from the start",
@@ -51,6 +51,20 @@ pub struct BeatCase {
     pub silence: Silence,
     pub traffic: bool,
     pub small_pipe: bool,
+    /// padding of the client's packets: 0 = none, 1 = the built-in scheme (packets 2..7), 2 = every
+    /// packet padded to 400-800 bytes. With `small_pipe` the pipe then takes 64 bytes at a time, so
+    /// a keep-alive request is still being written (its padding) when the answer comes back.
+    #[serde(default)]
+    pub padded: u8,
+}
+
+/// every packet up to the 400th is padded to 400-800 bytes
+fn always_padded_scheme() -> String {
+    let mut s = String::from("stop=400\n");
+    for i in 0..400 {
+        s.push_str(&format!("{i}=400-800\n"));
+    }
+    s
 }
 
 pub struct BeatFam;
@@ -95,14 +109,20 @@ impl Family for BeatFam {
             3 => (0u64..400_000).prop_map(Silence::AtMs),
             3 => (1u8..6).prop_map(Silence::AfterRequest),
         ];
-        (secs.clone(), secs, any::<bool>(), prop_oneof![Just(0u64), Just(1), Just(40), Just(400), Just(4000)], prop_oneof![Just(0u64), Just(5), Just(900)], silence, any::<bool>(), any::<bool>())
-            .prop_map(|(interval_s, timeout_s, real_server, delay_ms, answer_ms, silence, traffic, small_pipe)| {
-                let mut c = BeatCase { interval_s, timeout_s, real_server, delay_ms, answer_ms, silence, traffic, small_pipe };
+        (secs.clone(), secs, any::<bool>(), prop_oneof![Just(0u64), Just(1), Just(40), Just(400), Just(4000)], prop_oneof![Just(0u64), Just(5), Just(900)], silence, any::<bool>(), any::<bool>(), prop_oneof![2 => Just(0u8), 1 => Just(1u8), 2 => Just(2u8)])
+            .prop_map(|(interval_s, timeout_s, real_server, delay_ms, answer_ms, silence, traffic, small_pipe, padded)| {
+                let mut c = BeatCase { interval_s, timeout_s, real_server, delay_ms, answer_ms, silence, traffic, small_pipe, padded };
                 // sound domain: "every network delay below the timeout": keep the round trip strictly below it
                 let t_ms = c.timeout_s * 1000;
                 if c.real_server {
                     c.answer_ms = 0;
                     c.silence = Silence::Never;
+                }
+                if c.padded != 0 && c.small_pipe {
+                    // 64 bytes in flight at a time: with a one-way delay d the link carries 64 bytes
+                    // per d, and a 400-800 byte packet would take longer than the timeout to arrive -
+                    // that is a delay above the timeout, outside the property's domain
+                    c.delay_ms = 0;
                 }
                 while 2 * c.delay_ms + c.answer_ms >= t_ms {
                     if c.answer_ms > 0 {
@@ -123,9 +143,13 @@ impl Family for BeatFam {
                 if tier == Tier::Thorough && (i * 7 + t * 3) % 4 != 0 && i != t && t + 1 != i && i + 1 != t {
                     continue; // thin the big grid, keep the diagonal band
                 }
-                v.push(BeatCase { interval_s: i, timeout_s: t, real_server: true, delay_ms: 1, answer_ms: 0, silence: Silence::Never, traffic: false, small_pipe: false });
-                v.push(BeatCase { interval_s: i, timeout_s: t, real_server: false, delay_ms: 0, answer_ms: 5, silence: Silence::Never, traffic: false, small_pipe: false });
-                v.push(BeatCase { interval_s: i, timeout_s: t, real_server: false, delay_ms: 0, answer_ms: 5, silence: Silence::AfterRequest(2), traffic: false, small_pipe: false });
+                v.push(BeatCase { interval_s: i, timeout_s: t, real_server: true, delay_ms: 1, answer_ms: 0, silence: Silence::Never, traffic: false, small_pipe: false, padded: 0 });
+                v.push(BeatCase { interval_s: i, timeout_s: t, real_server: false, delay_ms: 0, answer_ms: 5, silence: Silence::Never, traffic: false, small_pipe: false, padded: 0 });
+                v.push(BeatCase { interval_s: i, timeout_s: t, real_server: false, delay_ms: 0, answer_ms: 5, silence: Silence::AfterRequest(2), traffic: false, small_pipe: false, padded: 0 });
+                // padded requests through a pipe that takes 64 bytes at a time: the answer is back
+                // before the request's padding has gone out
+                v.push(BeatCase { interval_s: i, timeout_s: t, real_server: true, delay_ms: 0, answer_ms: 0, silence: Silence::Never, traffic: false, small_pipe: true, padded: 2 });
+                v.push(BeatCase { interval_s: i, timeout_s: t, real_server: false, delay_ms: 0, answer_ms: 0, silence: Silence::Never, traffic: false, small_pipe: true, padded: if (i + t) % 2 == 0 { 1 } else { 2 } });
             }
         }
         v
@@ -154,10 +178,14 @@ impl Family for BeatFam {
 
         let obs: Obs = run_virtual(async move {
             let case = c;
-            let cap = if case.small_pipe { 256 } else { 1 << 22 };
+            let cap = if case.small_pipe { if case.padded != 0 { 64 } else { 256 } } else { 1 << 22 };
             let mut l = link(PipeParams { capacity: cap, delay_ms: case.delay_ms, ..Default::default() }, PipeParams { delay_ms: case.delay_ms, ..Default::default() });
             let hb = SessionHeartbeatConfig { interval: Duration::from_secs(case.interval_s), timeout: Duration::from_secs(case.timeout_s) };
-            let pad = padding("stop=0");
+            let pad = match case.padded {
+                0 => padding("stop=0"),
+                1 => default_padding(),
+                _ => padding(&always_padded_scheme()),
+            };
             let sess = client_session(&mut l, pad.clone(), Some(hb));
             let t0 = Instant::now();
             let c2s = l.c2s.clone();
@@ -320,7 +348,7 @@ impl Family for BeatFam {
         });
 
         let desc = format!(
-            "interval {}s timeout {}s, peer {}, one-way delay {} ms, think {} ms, silence {:?}, traffic {}, small pipe {}",
+            "interval {}s timeout {}s, peer {}, one-way delay {} ms, think {} ms, silence {:?}, traffic {}, small pipe {}, padding {}",
             case.interval_s,
             case.timeout_s,
             if case.real_server { "real server" } else { "scripted" },
@@ -328,7 +356,8 @@ impl Family for BeatFam {
             case.answer_ms,
             case.silence,
             case.traffic,
-            case.small_pipe
+            case.small_pipe,
+            ["none", "built-in scheme", "every packet 400-800 bytes"][case.padded.min(2) as usize]
         );
         match obs.silent_from {
             None => {
@@ -390,7 +419,7 @@ impl Family for BeatFam {
             }
         }
         let between = matches!(case.silence, Silence::AfterRequest(_));
-        out.nt(case.timeout_s <= case.interval_s || rtt * 2 > t_ms || between || (case.traffic && case.small_pipe));
+        out.nt(case.timeout_s <= case.interval_s || rtt * 2 > t_ms || between || (case.traffic && case.small_pipe) || (case.padded != 0 && case.small_pipe));
         out.class_if(case.timeout_s < case.interval_s, "timeout<interval");
         out.class_if(case.timeout_s == case.interval_s, "timeout=interval");
         out.class_if(rtt * 2 > t_ms, "rtt>timeout/2");
@@ -398,6 +427,8 @@ impl Family for BeatFam {
         out.class_if(obs.silent_from.is_some(), "peer-fell-silent");
         out.class_if(case.real_server, "real-server");
         out.class_if(case.traffic && case.small_pipe, "traffic>capacity");
+        out.class_if(case.padded != 0 && case.small_pipe, "padded-request-through-64-byte-pipe");
+        out.class_if(case.padded != 0 && case.small_pipe && case.timeout_s <= case.interval_s, "padded-request-through-64-byte-pipe+timeout<=interval");
         Ok(out)
     }
 }
